@@ -279,6 +279,36 @@ def check(ctx):
                 run.add('C17.flatten-shape', f.module.name, f.qualname, n, skipping,
                         'emptiness is tested on the flattened content without empty strings' if skipping else
                         'emptiness test keeps empty strings: an all-blank content counts as non-empty', node=n)
+        # the skipping flatten of the CONTENT is an emptiness probe only: it has lost the blank entries, so it must not
+        # become (part of) the block - the block is built from the content itself
+        cparam = next((a.arg for a in f.params() if a.arg == 'content'), None)
+        if cparam is None:
+            run.error('C17.flatten-shape', f.module.name, f.qualname, 'content parameter', f'{name} has no parameter `content`')
+            continue
+        probes = set()
+        for n in iter_own_nodes(f.node):
+            if isinstance(n, ast.Assign) and len(n.targets) == 1 and isinstance(n.targets[0], ast.Name) and \
+                    isinstance(n.value, ast.Call) and getattr(n.value.func, 'id', '') == 'flatten_to_strlist' and \
+                    n.value.args and ast.unparse(n.value.args[0]) == cparam and \
+                    not any(k.arg == 'skip_empty_strings' and isinstance(k.value, ast.Constant) and k.value.value is False
+                            for k in n.value.keywords):
+                probes.add(n.targets[0].id)
+        bad_uses = []
+        for n in iter_own_nodes(f.node):
+            if isinstance(n, ast.Name) and n.id in probes and isinstance(n.ctx, ast.Load):
+                par, child = prog.parent(n), n
+                while isinstance(par, (ast.UnaryOp, ast.BoolOp)):
+                    par, child = prog.parent(par), par
+                is_test = (isinstance(par, (ast.If, ast.IfExp, ast.While)) and par.test is child) or \
+                    (isinstance(par, ast.Call) and getattr(par.func, 'id', '') in ('len', 'bool', 'any'))
+                if not is_test:
+                    bad_uses.append(n)
+        run.add('C17.flatten-shape', f.module.name, f.qualname,
+                ctx.flow.enclosing_stmt(bad_uses[0]) if bad_uses else f'{name}: uses of the emptiness probe {sorted(probes)}', not bad_uses,
+                'the skipping flatten of the content is used for the emptiness test only; the block is built from the content itself'
+                if not bad_uses else
+                f'`{bad_uses[0].id}` (the content flattened WITHOUT its empty strings) is used to build the result: blank entries '
+                f'of the content are lost, the chunk is no longer content plus appendix', node=bad_uses[0] if bad_uses else None)
 
 
 def _str_rule(ctx, tb: ClassInfo):
